@@ -66,12 +66,29 @@ Section DynProofs.
   Lemma wf_with st : wfd st -> wf (with_handlers E (live st)) = true.
   Proof. intros H. unfold wf. cbn. apply nodupb_iff. exact H. Qed.
 
+  Lemma live_after_quiet o st : live (after_quiet_assign o st) = live st.
+  Proof. destruct o; reflexivity. Qed.
   Lemma dstep_wfd st o : wfd st -> wfd (fst (dstep st o)).
   Proof.
-    intros H. destruct o as [op|h|id]; cbn [Dyn.dstep fst].
-    - destruct (if empty_lists_delete E st op then _ else _) as [s' ob]. cbn [fst]. apply wfd_settle. exact H.
+    intros H. destruct o as [op|h|id|on]; cbn [Dyn.dstep fst].
+    - destruct (if d_quiet st then _ else _) as [s' ob]. cbn [fst]. unfold wfd. rewrite live_after_quiet. apply wfd_settle. exact H.
     - apply wfd_register. exact H.
     - apply wfd_unregister. exact H.
+    - exact H.
+  Qed.
+
+  Lemma quiet_op_slot st op : o_slot (snd (quiet_op E st op)) = fst (quiet_op E st op) /\ o_calls (snd (quiet_op E st op)) = [].
+  Proof.
+    unfold quiet_op. destruct op as [v| | |v'|];
+      try (pose proof (step_slot (with_handlers E (live st)) (d_slot st) (Assign v)) as S;
+           destruct (step (with_handlers E (live st)) (d_slot st) (Assign v)) as [s' ob]; cbn in *; split; [exact S|reflexivity]);
+      try (pose proof (step_slot (with_handlers E (live st)) (d_slot st) Read) as S;
+           destruct (step (with_handlers E (live st)) (d_slot st) Read) as [s' ob]; cbn in *; split; [exact S|reflexivity]);
+      try (pose proof (step_slot (with_handlers E (live st)) (d_slot st) (QuietAssign v')) as S;
+           destruct (step (with_handlers E (live st)) (d_slot st) (QuietAssign v')) as [s' ob]; cbn in *; split; [exact S|reflexivity]);
+      try (pose proof (step_slot (with_handlers E (live st)) (d_slot st) Retrait) as S;
+           destruct (step (with_handlers E (live st)) (d_slot st) Retrait) as [s' ob]; cbn in *; split; [exact S|reflexivity]).
+    destruct (d_slot st); [destruct (e_kind E)|]; split; reflexivity.
   Qed.
 
   (* one operation satisfies the law of the handlers live at that moment, and the law's own threading of the live
@@ -79,7 +96,9 @@ Section DynProofs.
   Lemma dstep_law st o : wfd st ->
     dlaw_step E st o (snd (dstep st o)) = [] /\ dnext st o (snd (dstep st o)) = fst (dstep st o).
   Proof.
-    intros H. destruct o as [op|h|id]; cbn [Dyn.dstep Dyn.dnext dlaw_step fst snd]; [|split; reflexivity..].
+    intros H. destruct o as [op|h|id|on]; cbn [Dyn.dstep Dyn.dnext dlaw_step fst snd]; [|split; reflexivity..].
+    destruct (d_quiet st) eqn:Q.
+    { destruct (quiet_op_slot st op) as [S C]. destruct (quiet_op E st op) as [s' ob]. cbn [fst snd] in *. rewrite S, C. split; reflexivity. }
     destruct (empty_lists_delete E st op) eqn:Sp.
     - cbn [fst snd]. unfold empty_lists_delete in Sp. destruct op; try discriminate. split; reflexivity.
     - pose proof (step_law (with_handlers E (live st)) (wf_with st H) (d_slot st) op) as L.
@@ -100,10 +119,11 @@ Section DynProofs.
      operation; (un)registration itself calls nobody *)
   Definition dspec_step (id : nat) (st : dstate) (o : dop) : list call :=
     match o with
-    | DOp op => match find_id id (live st) with
-                | Some h => spec_calls (with_handlers E (live st)) h (d_slot st) [op]
-                | None => []
-                end
+    | DOp op => if d_quiet st then []            (* notification switched off *)
+                else match find_id id (live st) with
+                     | Some h => spec_calls (with_handlers E (live st)) h (d_slot st) [op]
+                     | None => []
+                     end
     | _ => []
     end.
   Fixpoint dspec (id : nat) (st : dstate) (ops : list dop) : list call :=
@@ -149,7 +169,9 @@ Section DynProofs.
 
   Lemma dstep_calls id st o : wfd st -> calls_of id (o_calls (snd (dstep st o))) = dspec_step id st o.
   Proof.
-    intros H. destruct o as [op|h|k]; [|reflexivity..]. cbn [Dyn.dstep dspec_step].
+    intros H. destruct o as [op|h|k|on]; [|reflexivity..]. cbn [Dyn.dstep dspec_step].
+    destruct (d_quiet st) eqn:Q.
+    { destruct (quiet_op_slot st op) as [_ C]. destruct (quiet_op E st op) as [s' ob]. cbn [fst snd] in *. rewrite C. reflexivity. }
     destruct (empty_lists_delete E st op) eqn:Sp.
     - cbn [fst snd]. unfold empty_lists_delete in Sp. destruct op; try discriminate.
       destruct (d_slot st); [|discriminate]. destruct (e_kind E); [|discriminate].
@@ -254,11 +276,159 @@ Section DynProofs.
                   (forall k, In (k, RKill (h_id x)) reacts -> calls_of k (o_calls (snd (dstep st (DOp op)))) = []) ->
                   In x (live (fst (dstep st (DOp op))))).
   Proof.
-    cbn [Dyn.dstep]. destruct (if empty_lists_delete E st op then _ else _) as [s' ob]. cbn [fst snd]. split.
+    cbn [Dyn.dstep]. destruct (if d_quiet st then _ else _) as [s' ob]. cbn [fst snd]. rewrite live_after_quiet. split.
     - intros k v Hr Hc Hs. unfold Dyn.settle. apply fold_gone.
       + apply (triggered_in _ k); assumption.
       + intros h Hh. apply triggered_from in Hh. destruct Hh as (k' & Hk' & _). apply (Hs k' h Hk').
     - intros x Hx Hk. unfold Dyn.settle. apply fold_keeps; [exact Hx|].
       intros v Hv Ev. subst v. apply triggered_from in Hv. destruct Hv as (k & Hk1 & Hk2). apply Hk2. apply Hk. exact Hk1.
   Qed.
+  (* while notification is switched off nobody is called and nothing reaches the exception sink; afterwards
+     (DNotify true, or the end of a quiet trait_set) the theorems above apply again to the handlers then live *)
+  Lemma quiet_silent st op : d_quiet st = true ->
+    o_calls (snd (dstep st (DOp op))) = [] /\ o_sink (snd (dstep st (DOp op))) = []
+    /\ live (fst (dstep st (DOp op))) = live st.
+  Proof.
+    intros Q. cbn [Dyn.dstep]. rewrite Q. destruct (quiet_op_slot st op) as [_ C].
+    assert (o_sink (snd (quiet_op E st op)) = []) as K.
+    { unfold quiet_op. destruct op; try (destruct (step _ _ _); reflexivity).
+      destruct (d_slot st); [destruct (e_kind E)|]; reflexivity. }
+    destruct (quiet_op E st op) as [s' ob]. cbn [fst snd] in *. rewrite C. split; [reflexivity|]. split; [exact K|].
+    rewrite live_after_quiet. reflexivity.
+  Qed.
+  (* ---------- all mechanisms agree, for two handlers registered over the same stretches of the history ---------- *)
+  Fixpoint same_presence (id1 id2 : nat) (st : dstate) (ops : list dop) : Prop :=
+    match ops with
+    | [] => True
+    | o :: r => (find_id id1 (live st) = None <-> find_id id2 (live st) = None)
+                /\ same_presence id1 id2 (fst (dstep st o)) r
+    end.
+
+  Lemma dspec_agree id1 id2 : coherent_eq E -> forall ops st, same_presence id1 id2 st ops ->
+    map strip (dspec id1 st ops) = map strip (dspec id2 st ops).
+  Proof.
+    intros Hc. induction ops as [|o r IH]; intros st Hp; [reflexivity|]. destruct Hp as [Hp Hr].
+    cbn [dspec]. rewrite !map_app, (IH _ Hr). f_equal.
+    destruct o as [op|h|k|on]; try reflexivity. cbn [dspec_step]. destruct (d_quiet st); [reflexivity|].
+    destruct (find_id id1 (live st)) as [h1|] eqn:F1, (find_id id2 (live st)) as [h2|] eqn:F2.
+    - apply (spec_calls_agree (with_handlers E (live st)) h1 h2 Hc [op] (d_slot st)).
+    - destruct Hp as [_ Hp]. specialize (Hp eq_refl). discriminate.
+    - destruct Hp as [Hp _]. specialize (Hp eq_refl). discriminate.
+    - reflexivity.
+  Qed.
+
+  Theorem dmechanisms_agree id1 id2 ops st : wfd st -> coherent_eq E -> same_presence id1 id2 st ops ->
+    map strip (calls_of id1 (dall_calls (drun st ops))) = map strip (calls_of id2 (dall_calls (drun st ops))).
+  Proof. intros Hw Hc Hp. rewrite !dcalls_exact by exact Hw. apply dspec_agree; assumption. Qed.
 End DynProofs.
+
+(* ================= which handlers raise does not matter, with handlers coming and going ================= *)
+Definition setr (f : nat -> bool) (h : handler) : handler := mkHandler (h_id h) (h_mech h) (f (h_id h)).
+Definition setr_state (f : nat -> bool) (st : dstate) : dstate :=
+  mkD (d_slot st) (map (setr f) (d_tl st)) (map (setr f) (d_ol st)) (d_alloc st) (d_quiet st).
+Definition setr_reaction (f : nat -> bool) (r : reaction) : reaction :=
+  match r with RKill v => RKill v | RSpawn h => RSpawn (setr f h) end.
+Definition setr_reacts (f : nat -> bool) (rs : list (nat * reaction)) : list (nat * reaction) :=
+  map (fun p => (fst p, setr_reaction f (snd p))) rs.
+Definition setr_op (f : nat -> bool) (o : dop) : dop :=
+  match o with DRegister h => DRegister (setr f h) | _ => o end.
+
+Section DynTransparent.
+  Variable E : env.
+  Variable reacts : list (nat * reaction).
+  Variable f : nat -> bool.
+  Notation Ef := (set_raises f E).
+  Notation Rf := (setr_reacts f reacts).
+
+  Lemma live_setr st : live (setr_state f st) = map (setr f) (live st).
+  Proof. unfold live. cbn. rewrite map_app. reflexivity. Qed.
+  Lemma has_id_setr id l : has_id id (map (setr f) l) = has_id id l.
+  Proof. unfold has_id. induction l as [|x l IH]; cbn; [reflexivity|]. rewrite IH. reflexivity. Qed.
+  Lemma drop_ids_setr ids l : drop_ids ids (map (setr f) l) = map (setr f) (drop_ids ids l).
+  Proof.
+    unfold drop_ids. induction l as [|x l IH]; cbn; [reflexivity|].
+    destruct (existsb (Nat.eqb (h_id x)) ids); cbn; rewrite IH; reflexivity.
+  Qed.
+  Lemma register_setr st h : register (setr_state f st) (setr f h) = setr_state f (register st h).
+  Proof.
+    unfold register. rewrite live_setr, has_id_setr. cbn [h_id setr]. destruct (has_id (h_id h) (live st)); [reflexivity|].
+    unfold is_obj. cbn [h_mech setr]. destruct (h_mech h); unfold setr_state; cbn; rewrite ?map_app; reflexivity.
+  Qed.
+  Lemma unregister_setr st v : unregister (setr_state f st) v = setr_state f (unregister st v).
+  Proof. unfold unregister, setr_state. cbn [d_slot d_tl d_ol d_alloc d_quiet]. rewrite !drop_ids_setr. reflexivity. Qed.
+  Lemma react_setr st r : react (setr_state f st) (setr_reaction f r) = setr_state f (react st r).
+  Proof. destruct r; [apply unregister_setr|apply register_setr]. Qed.
+  Lemma fold_setr rs : forall st, fold_left react (map (setr_reaction f) rs) (setr_state f st) = setr_state f (fold_left react rs st).
+  Proof. induction rs as [|r rs IH]; intros st; [reflexivity|]. cbn. rewrite react_setr. apply IH. Qed.
+  Lemma filter_setr (k : nat) (rs : list (nat * reaction)) :
+    map snd (filter (fun p : nat * reaction => fst p =? k) (setr_reacts f rs))
+    = map (setr_reaction f) (map snd (filter (fun p : nat * reaction => fst p =? k) rs)).
+  Proof.
+    unfold setr_reacts. induction rs as [|p rs IHr]; [reflexivity|]. cbn. destruct (fst p =? k); cbn; rewrite IHr; reflexivity.
+  Qed.
+  Lemma triggered_setr calls : triggered Rf calls = map (setr_reaction f) (triggered reacts calls).
+  Proof.
+    unfold triggered. induction calls as [|c l IH]; [reflexivity|]. cbn [flat_map]. rewrite map_app, IH, filter_setr. reflexivity.
+  Qed.
+  Lemma settle_setr st s' calls : settle Rf (setr_state f st) s' calls = setr_state f (settle reacts st s' calls).
+  Proof. unfold settle. rewrite triggered_setr. apply (fold_setr _ (mkD s' (d_tl st) (d_ol st) (d_alloc st) (d_quiet st))). Qed.
+
+  Lemma with_setr l : with_handlers Ef (map (setr f) l) = set_raises f (with_handlers E l).
+  Proof. reflexivity. Qed.
+  Lemma is_nil_map {A B} (g : A -> B) l : is_nil (map g l) = is_nil l.
+  Proof. destruct l; reflexivity. Qed.
+
+  Lemma after_quiet_setr o st : after_quiet_assign o (setr_state f st) = setr_state f (after_quiet_assign o st).
+  Proof. destruct o; reflexivity. Qed.
+
+  (* one operation: the states stay related and everything but the sink is the same *)
+  Lemma dstep_setr st o :
+    fst (dstep Ef Rf (setr_state f st) (setr_op f o)) = setr_state f (fst (dstep E reacts st o))
+    /\ visible (snd (dstep Ef Rf (setr_state f st) (setr_op f o))) = visible (snd (dstep E reacts st o)).
+  Proof.
+    destruct o as [op|h|id|on]; cbn [setr_op dstep fst snd].
+    - assert (d_quiet (setr_state f st) = d_quiet st) as -> by reflexivity.
+      assert (d_slot (setr_state f st) = d_slot st) as Hsl by reflexivity.
+      destruct (d_quiet st).
+      + (* switched off *)
+        unfold quiet_op. rewrite live_setr, with_setr, Hsl. cbn [e_kind set_raises].
+        destruct op as [v| | |v'|];
+          try (match goal with |- context [step (set_raises f ?E') ?s ?o] =>
+                 destruct (step_visible_set_raises E' f s o) as [F V];
+                 destruct (step (set_raises f E') s o) as [s1 ob1], (step E' s o) as [s2 ob2] end;
+               cbn [fst snd] in *; subst s1; unfold visible in V; inversion V as [[V1 V2 V3]];
+               cbn [o_calls fst snd]; rewrite settle_setr, after_quiet_setr; split; [reflexivity|];
+               unfold visible; cbn; rewrite V1, V2; reflexivity).
+        destruct (d_slot st); [destruct (e_kind E)|]; cbn [fst snd o_calls silent];
+          rewrite settle_setr, after_quiet_setr; split; reflexivity.
+      + assert (empty_lists_delete Ef (setr_state f st) op = empty_lists_delete E st op) as ->.
+        { unfold empty_lists_delete. rewrite live_setr, is_nil_map. reflexivity. }
+        destruct (empty_lists_delete E st op).
+        * cbn [fst snd o_calls silent]. rewrite settle_setr, after_quiet_setr. split; reflexivity.
+        * rewrite live_setr, with_setr, Hsl.
+          destruct (step_visible_set_raises (with_handlers E (live st)) f (d_slot st) op) as [F V].
+          destruct (step (set_raises f (with_handlers E (live st))) (d_slot st) op) as [s1 ob1],
+                   (step (with_handlers E (live st)) (d_slot st) op) as [s2 ob2].
+          cbn [fst snd] in *. subst s1. unfold visible in V. inversion V as [[V1 V2 V3]]. rewrite V3.
+          rewrite settle_setr, after_quiet_setr. split; [reflexivity|]. unfold visible. rewrite V1, V2, V3. reflexivity.
+    - rewrite register_setr. split; reflexivity.
+    - rewrite unregister_setr. split; reflexivity.
+    - split; reflexivity.
+  Qed.
+
+  Lemma drun_setr ops : forall st,
+    map (fun p => visible (snd p)) (drun Ef Rf (setr_state f st) (map (setr_op f) ops))
+    = map (fun p => visible (snd p)) (drun E reacts st ops).
+  Proof.
+    induction ops as [|o r IH]; intros st; [reflexivity|]. cbn [map drun].
+    destruct (dstep_setr st o) as [F V].
+    destruct (dstep Ef Rf (setr_state f st) (setr_op f o)) as [s1 ob1], (dstep E reacts st o) as [s2 ob2].
+    cbn [fst snd map] in *. subst s1. rewrite V. f_equal. apply IH.
+  Qed.
+End DynTransparent.
+
+(* two choices of raising handlers give the same outcomes, stored values and call lists at every step *)
+Lemma dyn_raising_transparent E reacts f g ops st :
+  map (fun p => visible (snd p)) (drun (set_raises f E) (setr_reacts f reacts) (setr_state f st) (map (setr_op f) ops))
+  = map (fun p => visible (snd p)) (drun (set_raises g E) (setr_reacts g reacts) (setr_state g st) (map (setr_op g) ops)).
+Proof. rewrite !drun_setr. reflexivity. Qed.
